@@ -638,7 +638,9 @@ def _finish(ctx: core.Ctx, raw: list[tuple[str, str, dict[str, Any]]]) -> None:
             ctx.violate(key, what, w)
             continue
         try:
-            if w["parser"] == "validate":
+            if w["parser"] == "regex":
+                pass
+            elif w["parser"] == "validate":
                 m = shrink_mapping(w["mapping"], w["strict"], w["label"], key)
                 w = dict(w, mapping=m)
                 what = re.sub(r"mapping \{.*$", "mapping " + json.dumps(m, default=str)[:300], what)
@@ -683,13 +685,15 @@ def _plan(ctx: core.Ctx, strings: int, mappings: int, chunk: int) -> tuple[list[
     return jobs, mjobs
 
 
-def _run_stream(ctx: core.Ctx, strings: int, mappings: int, chunk: int, raw: list[tuple[str, str, dict[str, Any]]]) -> None:
+def _run_stream(ctx: core.Ctx, strings: int, mappings: int, chunk: int, raw: list[tuple[str, str, dict[str, Any]]],
+                regex: bool = False) -> None:
     jobs, mjobs = _plan(ctx, strings, mappings, chunk)
     workers = max(1, min(int(os.environ.get("VERIF_WORKERS", "0")) or (os.cpu_count() or 2) - 2, 14, len(jobs) + len(mjobs)))
     mp = multiprocessing.get_context("fork")
     # expensive grammars first (better packing); results are merged in plan order, so the run is a function of the seed
     order = sorted(range(len(jobs)), key=lambda i: -{"marker": 5, "dependency": 4, "requirement": 3}.get(jobs[i][0], 1))
     with mp.Pool(workers) as pool:
+        rpend = pool.apply_async(regex_worker, (0,)) if regex else None
         pend = {i: pool.apply_async(chunk_worker, (jobs[i],)) for i in order}
         mpend = [pool.apply_async(mapping_worker, (j,)) for j in mjobs]
         for i in range(len(jobs)):
@@ -698,6 +702,8 @@ def _run_stream(ctx: core.Ctx, strings: int, mappings: int, chunk: int, raw: lis
             r = p.get(timeout=3000)
             _merge(ctx, r, raw)
             ctx.stream("validate-mappings", r["n"], 0)
+        if rpend is not None:
+            _merge(ctx, rpend.get(timeout=3000), raw)
 
 
 def correspondence(ctx: core.Ctx) -> None:
@@ -720,7 +726,7 @@ def correspondence(ctx: core.Ctx) -> None:
         os.chdir(cwd)
         shutil.rmtree(tmp, ignore_errors=True)
     # 2. the fuzz streams
-    _run_stream(ctx, ctx.budget(40000, 2000000), ctx.budget(1500, 40000), ctx.budget(2400, 24000), raw)
+    _run_stream(ctx, ctx.budget(40000, 2000000), ctx.budget(1500, 40000), ctx.budget(2400, 24000), raw, regex=True)
     _finish(ctx, raw)
     ctx.notes.append("requirement/dependency: real-code oracle only; validate: correspondence-only (no Lean model)")
 
@@ -742,7 +748,9 @@ def replay(ctx: core.Ctx, payload: dict[str, Any]) -> bool:
     _quiet()
     w = payload.get("witness", payload)
     before = len(ctx.violations)
-    if w.get("parser") == "validate":
+    if w.get("parser") == "regex":
+        v = regex_violation(w)
+    elif w.get("parser") == "validate":
         o = run_mapping(w["mapping"], bool(w.get("strict")))
         v = mapping_violation(w["mapping"], bool(w.get("strict")), w.get("label", "replay"), o)
     else:
@@ -768,3 +776,257 @@ def extra_evidence(ctx: core.Ctx) -> dict[str, Any]:
     skipped = {k: v for k, v in ctx.dist.items() if ":model-skipped:" in k}
     return {"model_skipped": skipped, "notes": ctx.notes, "alarm_cpu_seconds": ALARM_S,
             "modelled_parsers": sorted(MODEL_OPS), "oracle_only": ["requirement", "dependency", "validate"]}
+
+
+# ----------------------------------------------------------------------------------------------------------------
+# deterministic regex stress: pump strings derived from the syntax tree of every regular expression of the parsers
+# ----------------------------------------------------------------------------------------------------------------
+
+REGEX_MODULES = [
+    "poetry.core.constraints.version.patterns", "poetry.core.constraints.version.parser", "poetry.core.constraints.generic.parser",
+    "poetry.core.version.pep440.parser", "poetry.core.version.markers", "poetry.core.version.requirements", "poetry.core.vcs.git",
+    "poetry.core.utils.patterns", "poetry.core.packages.utils.utils", "poetry.core.packages.utils.link", "poetry.core.packages.dependency",
+    "poetry.core.utils.helpers",
+]
+REGEX_LIMIT_S = 1.0      # CPU seconds for one match attempt on a 2000-character pump string (linear: < 10 ms; quadratic: < 0.3 s)
+REGEX_ALARM_S = 3.0
+
+
+def regex_sources() -> list[tuple[str, str, Any]]:
+    """(file, name, compiled pattern) for every regular expression of the parser modules: compiled module/class constants,
+    literal patterns passed to re.<function> inside the module source, and the /regex/ terminals of the lark grammars"""
+    import ast
+    import importlib
+    out: list[tuple[str, str, Any]] = []
+    seen: set[tuple[str, int]] = set()
+
+    def add(file: str, name: str, pat: Any) -> None:
+        k = (pat.pattern, pat.flags)
+        if k not in seen:
+            seen.add(k)
+            out.append((file, name, pat))
+
+    for modname in REGEX_MODULES:
+        try:
+            mod = importlib.import_module(modname)
+        except Exception:  # noqa: BLE001
+            continue
+        file = (getattr(mod, "__file__", modname) or modname).replace("\\", "/").rsplit("/", 1)[-1]
+        for name, v in sorted(vars(mod).items()):
+            if isinstance(v, re.Pattern):
+                add(file, name, v)
+            elif isinstance(v, (list, tuple)) and v and all(isinstance(x, re.Pattern) for x in v):
+                for x in v:
+                    add(file, name, x)
+            elif isinstance(v, type) and getattr(v, "__module__", None) == modname:
+                for an, av in sorted(vars(v).items()):
+                    if isinstance(av, re.Pattern):
+                        add(file, f"{name}.{an}", av)
+        try:
+            tree = ast.parse(open(mod.__file__, encoding="utf-8").read())
+        except Exception:  # noqa: BLE001
+            continue
+        for node in ast.walk(tree):
+            if (isinstance(node, ast.Call) and isinstance(node.func, ast.Attribute) and isinstance(node.func.value, ast.Name)
+                    and node.func.value.id == "re" and node.args and isinstance(node.args[0], ast.Constant)
+                    and isinstance(node.args[0].value, str)):
+                try:
+                    add(file, f"re.{node.func.attr}@{node.lineno}", re.compile(node.args[0].value))
+                except re.error:
+                    pass
+    gdir = core.REPO / "src" / "poetry" / "core" / "version" / "grammars"
+    for g in sorted(gdir.glob("*.lark")):
+        for m in re.finditer(r"^([A-Z_]+):\s*/(.+)/([a-z]*)\s*$", g.read_text(encoding="utf-8"), re.M):
+            try:
+                add(g.name, m.group(1), re.compile(m.group(2).replace("\\/", "/"), re.I if "i" in m.group(3) else 0))
+            except re.error:
+                pass
+    return out
+
+
+def _in_matches(items: list[Any], ch: str) -> bool:
+    from re import _constants as C  # type: ignore[attr-defined]
+    neg, hit = False, False
+    for op, av in items:
+        if op is C.NEGATE:
+            neg = True
+        elif op is C.LITERAL:
+            hit = hit or ord(ch) == av
+        elif op is C.RANGE:
+            hit = hit or av[0] <= ord(ch) <= av[1]
+        elif op is C.CATEGORY:
+            name = str(av)
+            base = (ch.isdigit() if "DIGIT" in name else ch.isspace() if "SPACE" in name else (ch.isalnum() or ch == "_"))
+            hit = hit or (not base if "NOT" in name else base)
+    return hit != neg
+
+
+def _sample(seq: Any, groups: dict[int, str], rich: bool) -> str:
+    """a short string the node sequence matches (first alternatives; optional parts present iff `rich`)"""
+    from re import _constants as C  # type: ignore[attr-defined]
+    out = []
+    for op, av in seq:
+        if op is C.LITERAL:
+            out.append(chr(av))
+        elif op is C.NOT_LITERAL:
+            out.append("a" if av != ord("a") else "b")
+        elif op is C.ANY:
+            out.append("a")
+        elif op is C.IN:
+            out.append(next((c for c in "a1 .-_,|'\"/:@=<>~^!*+x\t\\" if _in_matches(av, c)), "a"))
+        elif op is C.BRANCH:
+            out.append(_sample(av[1][0], groups, rich))
+        elif op is C.SUBPATTERN:
+            s = _sample(av[3], groups, rich)
+            if av[0] is not None:
+                groups[av[0]] = s
+            out.append(s)
+        elif op in (C.MAX_REPEAT, C.MIN_REPEAT) or str(op) == "POSSESSIVE_REPEAT":
+            lo = av[0]
+            out.append(_sample(av[2], groups, rich) * (lo if lo > 0 else (1 if rich else 0)))
+        elif op is C.GROUPREF:
+            out.append(groups.get(av, ""))
+        elif str(op) == "ATOMIC_GROUP":
+            out.append(_sample(av, groups, rich))
+        # AT, ASSERT, ASSERT_NOT, GROUPREF_EXISTS: zero width / ignored
+    return "".join(out)
+
+
+def _pumps(seq: Any, n: int, rich: bool) -> list[str]:
+    """strings in which exactly one repeatable sub-expression is taken n times, everything before it once"""
+    from re import _constants as C  # type: ignore[attr-defined]
+    res: list[str] = []
+    nodes = list(seq)
+    for i, (op, av) in enumerate(nodes):
+        prefix = _sample(nodes[:i], {}, rich)
+        inner: list[Any] = []
+        if op in (C.MAX_REPEAT, C.MIN_REPEAT) or str(op) == "POSSESSIVE_REPEAT":
+            if av[1] is C.MAXREPEAT or av[1] > 8:
+                body = _sample(av[2], {}, True)
+                if body:
+                    res.append(prefix + body * max(1, n // len(body)))
+                    # alternative members of a branch / class inside the body give other pump units
+                    for alt in _alternatives(av[2]):
+                        if alt and alt != body:
+                            res.append(prefix + alt * max(1, n // len(alt)))
+            inner = [av[2]]
+        elif op is C.SUBPATTERN:
+            inner = [av[3]]
+        elif op is C.BRANCH:
+            inner = list(av[1])
+        elif str(op) == "ATOMIC_GROUP":
+            inner = [av]
+        for sub in inner:
+            res.extend(prefix + s for s in _pumps(sub, n, rich))
+    return res
+
+
+def _alternatives(seq: Any) -> list[str]:
+    from re import _constants as C  # type: ignore[attr-defined]
+    nodes = list(seq)
+    out: list[str] = []
+    if len(nodes) == 1:
+        op, av = nodes[0]
+        if op is C.BRANCH:
+            out = [_sample(b, {}, True) for b in av[1]]
+        elif op is C.SUBPATTERN:
+            out = _alternatives(av[3])
+        elif op is C.IN:
+            out = [c for c in "a1 .-_,|" if _in_matches(av, c)][:3]
+    return out
+
+
+def pump_strings(pat: Any, n: int) -> list[str]:
+    try:
+        from re import _parser  # type: ignore[attr-defined]
+        tree = _parser.parse(pat.pattern, pat.flags)
+    except Exception:  # noqa: BLE001
+        return []
+    out: list[str] = []
+    for rich in (True, False):
+        for p in _pumps(tree, n, rich):
+            for tail in ("\x00", "!", ""):
+                s = p + tail
+                if s not in out:
+                    out.append(s)
+    return out[:240]
+
+
+def _time_regex(pat: Any, mode: str, s: str) -> float:
+    """CPU seconds of one match attempt (REGEX_ALARM_S when it was interrupted)"""
+    fn = pat.match if mode == "match" else pat.search
+    t0 = time.process_time()
+    try:
+        with_cpu_alarm(lambda: fn(s), REGEX_ALARM_S)
+    except _Timeout:
+        return REGEX_ALARM_S
+    return time.process_time() - t0
+
+
+def regex_worker(_arg: int) -> dict[str, Any]:
+    core.use_repo_source()
+    _quiet()
+    sub = core.Ctx(PROP, "quick", 0)
+    raw: list[tuple[str, str, dict[str, Any]]] = []
+    regex_stress(sub, raw)
+    return {"n": sub.evaluations, "dist": sub.dist, "nontrivial": [], "violations": raw, "disagreements": [], "samples": [],
+            "streams": sub.streams, "timeouts": 0, "grammar": "regex"}
+
+
+def regex_violation(w: dict[str, Any]) -> tuple[str, str, dict[str, Any]] | None:
+    """replay of a regex-stress witness: the named constant (any member of a list constant) on the recorded string"""
+    for file, name, pat in regex_sources():
+        if file == w["file"] and name.split("@")[0] == w["name"].split("@")[0]:
+            for mode in ("match", "search"):
+                if _time_regex(pat, mode, w["s"]) > REGEX_LIMIT_S and _time_regex(pat, mode, w["s"]) > REGEX_LIMIT_S:
+                    return (f"regex:timeout:{file}:{name.split('@')[0]}",
+                            f"regular expression {name} of {file} needs more than {REGEX_LIMIT_S:.0f} s CPU for one .{mode}() on {_short(w['s'])}", w)
+    return None
+
+
+def regex_stress(ctx: core.Ctx, raw: list[tuple[str, str, dict[str, Any]]]) -> None:
+    """quick and thorough: every pattern on all its pump strings at 200 characters, then the eight pumps that were slowest there
+    at 2000 characters; one match attempt above REGEX_LIMIT_S CPU (twice) is a super-linear branch"""
+    n_pat = n_str = 0
+
+    def judge(file: str, name: str, pat: Any, mode: str, s: str) -> bool:
+        nonlocal n_str
+        n_str += 1
+        t = _time_regex(pat, mode, s)
+        if t > REGEX_LIMIT_S and _time_regex(pat, mode, s) > REGEX_LIMIT_S:
+            key = f"regex:timeout:{file}:{name.split('@')[0]}"
+            what = (f"regular expression {name} of {file} ({_short(pat.pattern)}) needs more than {REGEX_LIMIT_S:.0f} s CPU for one "
+                    f".{mode}() on the {len(s)}-character pump string {_short(s)} (a repeatable sub-expression taken many times, then a "
+                    f"non-matching tail): super-linear back-tracking")
+            if not any(x[0] == key for x in raw):
+                raw.append((key, what, {"parser": "regex", "file": file, "name": name, "mode": mode, "s": s, "label": "regex-stress"}))
+            return True
+        judge.last = t  # type: ignore[attr-defined]
+        return False
+
+    for file, name, pat in regex_sources():
+        n_pat += 1
+        if any(x[0] == f"regex:timeout:{file}:{name.split('@')[0]}" for x in raw):
+            ctx.count("regex-stress:same-constant-already-flagged")
+            continue
+        small, big = pump_strings(pat, 200), pump_strings(pat, 2000)
+        times: list[tuple[float, int, str]] = []
+        flagged = False
+        for i, s in enumerate(small):
+            for mode in ("match", "search"):
+                if judge(file, name, pat, mode, s):
+                    flagged = True
+                    break
+                times.append((judge.last, i, mode))  # type: ignore[attr-defined]
+            if flagged:
+                break
+        if not flagged:
+            times.sort(key=lambda x: (-x[0], x[1], x[2]))
+            for _t, i, mode in times[:8]:
+                if i < len(big) and judge(file, name, pat, mode, big[i]):
+                    flagged = True
+                    break
+        ctx.count("regex-stress:" + ("super-linear" if flagged else "linear-or-quadratic"))
+    ctx.evaluations += n_str
+    ctx.stream("regex-stress", n_str, 0)
+    ctx.count("regex-stress:patterns", n_pat)
